@@ -40,12 +40,14 @@ def spellings(name):
 
 
 class World(object):
-    def __init__(self, names=None, via_load=False):
+    def __init__(self, names=None, via_load=False, types=None):
         names = names or {'cls': 'Ab', 'plain': 'Xy', 'ident': 'iD', 'ref': 'Rf', 'tcls': 'Tq', 'tkey': 'K'}
         self.names = names
+        self.types = types = types or {'plain': 'INTEGER', 'ident': 'INTEGER'}
         if via_load:
+            names = dict(names, plain_t=types['plain'], ident_t=types['ident'])
             # the same two instances, loaded from text with a dangling and a null referential value
-            text = ('CREATE TABLE %(cls)s (%(plain)s INTEGER, %(ident)s INTEGER, %(ref)s INTEGER);\n'
+            text = ('CREATE TABLE %(cls)s (%(plain)s %(plain_t)s, %(ident)s %(ident_t)s, %(ref)s INTEGER);\n'
                     'CREATE TABLE %(tcls)s (%(tkey)s INTEGER);\n'
                     'CREATE UNIQUE INDEX I1 ON %(cls)s (%(ident)s);\n'
                     'CREATE ROP REF_ID R1 FROM MC %(cls)s (%(ref)s) TO 1C %(tcls)s (%(tkey)s);\n'
@@ -62,7 +64,7 @@ class World(object):
                           {names['plain']: 41, names['ident']: 42, 'ref': None}]
             return
         m = xtuml.MetaModel(xtuml.IntegerGenerator())
-        m.define_class(names['cls'], [(names['plain'], 'INTEGER'), (names['ident'], 'INTEGER'), (names['ref'], 'INTEGER')])
+        m.define_class(names['cls'], [(names['plain'], types['plain']), (names['ident'], types['ident']), (names['ref'], 'INTEGER')])
         m.define_class(names['tcls'], [(names['tkey'], 'INTEGER')])
         m.define_unique_identifier(names['cls'], 'I1', names['ident'])
         ass = m.define_association(1, names['cls'], [names['ref']], True, True, '',
@@ -73,6 +75,9 @@ class World(object):
         self.insts = [m.new(names['cls']), m.new(names['cls'])]
         # model: per instance declared name -> value
         self.model = [{names['plain']: 0, names['ident']: 0, 'ref': None} for _ in self.insts]
+        # (an attribute of type UNIQUE_ID gets a generated default: the model values are written explicitly)
+        setattr(self.insts[0], names['plain'], 0)
+        setattr(self.insts[0], names['ident'], 0)
         # bystander gets distinct values once, through declared names
         setattr(self.insts[1], names['plain'], 41)
         setattr(self.insts[1], names['ident'], 42)
@@ -132,6 +137,10 @@ def apply(w, op, case):
         except Exception as e:
             fail('new-exception:' + exc_bucket(e), repr(e))
         mod = {n['plain']: 0, n['ident']: 0, 'ref': None}
+        for which in ('plain', 'ident'):
+            if w.types[which] == 'UNIQUE_ID':
+                # no keyword: a generated identifier, whatever it is it is one stored value
+                mod[n[which]] = new.__dict__.get(n[which])
         for which, sp, v in kw:
             mod[n[which]] = v
         w.insts.append(new)
@@ -199,7 +208,9 @@ def check(w, case, value_pool):
             fail('serialize-exception:' + exc_bucket(e), repr(e))
         vals = [ln.strip().split(' ')[0].rstrip(',') for ln in text.splitlines()[1:-1]]
         ref = w.model[k]['ref']
-        want = [str(w.model[k][n['plain']]), str(w.model[k][n['ident']]), str(ref if ref is not None else 0)]
+        import uuid
+        show = lambda which: ('"%s"' % uuid.UUID(int=w.model[k][n[which]])) if w.types[which] == 'UNIQUE_ID' else str(w.model[k][n[which]])
+        want = [show('plain'), show('ident'), str(ref if ref is not None else 0)]
         if vals != want:
             fail('serialized-other-value', 'instance %d serialized %r, model %r' % (k, vals, want))
     # queries under every spelling
@@ -244,6 +255,10 @@ LONG_VARIANTS = [None, {'cls': 'Ab_c', 'plain': 'nAME', 'ident': 'key_X', 'ref':
                  {'cls': 'AB_C', 'plain': 'NAME', 'ident': 'KEY_x', 'ref': 'T_Id', 'tcls': 'TQ', 'tkey': 'K'}]
 
 
+TYPE_VARIANTS = [{'plain': 'INTEGER', 'ident': 'INTEGER'}, {'plain': 'INTEGER', 'ident': 'UNIQUE_ID'},
+                 {'plain': 'UNIQUE_ID', 'ident': 'INTEGER'}, {'plain': 'INTEGER', 'ident': 'INTEGER'}]
+
+
 def run_sequence(case, names=None, value_pool=(1, 2, 0)):
     # the DECLARED spelling varies between cases too (several metamodels with the same class kind live in one
     # process); which variant is a pure function of the case
@@ -253,8 +268,13 @@ def run_sequence(case, names=None, value_pool=(1, 2, 0)):
         names = VARIANTS[v]
     elif v:
         names = LONG_VARIANTS[v]
-    w = World(names, via_load=int(sha(case['ops'])[2:4], 16) % 3 == 0)
+    types = TYPE_VARIANTS[int(sha(case['ops'])[4:6], 16) % len(TYPE_VARIANTS)]
+    w = World(names, via_load=int(sha(case['ops'])[2:4], 16) % 3 == 0, types=types)
     for op in case['ops']:
+        if op[0] == 'write' and types[op[1]] == 'UNIQUE_ID' and op[3] < 0:
+            op = op[:3] + [op[3] + 10]       # identifiers are not negative
+        elif op[0] == 'new':
+            op = op[:2] + [[[wh, sp, v + 10 if v < 0 and types[wh] == 'UNIQUE_ID' else v] for wh, sp, v in op[2]]]
         apply(w, op, case)
     check(w, case, value_pool)
 
